@@ -232,6 +232,9 @@ def parse_spec(s) -> Spec:
         return Spec("seq", Spec("val"), {"seq": None, "list": False, "tuple": True}[s])
     if s == "set":
         return Spec("set", Spec("val"))
+    if s == "hset":
+        # a real hash set: a membership test hashes the probe (TypeError for an unhashable one)
+        return Spec("set", Spec("val"), "hash")
     if s == "dict":
         return Spec("dict", (Spec("val"), Spec("val")))
     if s in ("int", "bool", "str", "val", "any"):
